@@ -77,11 +77,16 @@ fn one(tier: Tier, n_inputs: usize) -> BoxedStrategy<AstCase> {
             if lr {
                 grammar.gtype = Some(GType::LALR);
             }
+            let mut t2 = Tape { data: &at, pos: 0 };
+            gens::ast_annotate(&mut grammar, &mut t2);
+            // a third of the grammars get a non-terminal whose alternatives share a prefix symbol
+            // (left factoring has to happen) while one alternative carries other AST control on it
+            if t2.next(3) == 2 {
+                add_prefix_family(&mut grammar, &mut t2);
+            }
             let ig = IGrammar::from(&grammar);
             let h = chart::min_heights(&ig);
             let inputs: Vec<Input> = its.iter().map(|t| gens::input_mode(&ig, &h, t, true)).collect();
-            let mut t2 = Tape { data: &at, pos: 0 };
-            gens::ast_annotate(&mut grammar, &mut t2);
             let nt = (ig.terms.len() + 1) as f64;
             let kmax = ((6000f64).ln() / nt.ln()).floor() as usize;
             AstCase {
@@ -95,6 +100,36 @@ fn one(tier: Tier, n_inputs: usize) -> BoxedStrategy<AstCase> {
             }
         })
         .boxed()
+}
+
+/// `S: .. | 'lfk' LfX;  LfX: LfN 'lfp' | LfN 'lfq' | LfN^ 'lfr';  LfN: 'lfn';` with the AST control
+/// (clip, member name, user type) either on the odd alternative or on the two that share the prefix
+fn add_prefix_family(g: &mut Grammar, t: &mut Tape) {
+    if g.prods.iter().any(|p| p.lhs == "LfX" || p.lhs == "LfN") {
+        return;
+    }
+    let deco = |k: usize| -> Ann {
+        match k {
+            0 => Ann { clip: true, ..Ann::default() },
+            1 => Ann { member: Some("m".into()), ..Ann::default() },
+            _ => Ann { utype: Some("crate::types::Num".into()), ..Ann::default() },
+        }
+    };
+    let d = deco(t.next(3));
+    let on_pair = t.next(2) == 1;
+    let occ = |a: &Ann| Factor::N { name: "LfN".into(), ann: a.clone() };
+    let (pair, odd) = if on_pair { (d.clone(), Ann::default()) } else { (Ann::default(), d.clone()) };
+    let mut alts = vec![vec![occ(&pair), Factor::t("lfp")], vec![occ(&pair), Factor::t("lfq")], vec![occ(&odd), Factor::t("lfr")]];
+    // the odd one in front, in the middle or at the end
+    let pos = t.next(3);
+    let x = alts.remove(2);
+    alts.insert(pos, x);
+    g.prods.push(Prod { lhs: "LfX".into(), alts });
+    g.prods.push(Prod { lhs: "LfN".into(), alts: vec![vec![Factor::t("lfn")]] });
+    let start = g.start.clone();
+    if let Some(p) = g.prods.iter_mut().find(|p| p.lhs == start) {
+        p.alts.push(vec![Factor::t("lfk"), Factor::n("LfX")]);
+    }
 }
 
 fn has_opt_or_rep(a: &Alts) -> bool {
@@ -698,6 +733,10 @@ fn check_crate(o: &gencrate::CrateOut, c: &AstCase) -> CrateCheck {
                 class("input/not_a_sentence");
                 continue;
             }
+            Found::TooComplex => {
+                class("input/reference_derivation_search_over_budget");
+                continue;
+            }
         };
         if let Some(p) = &run.panic {
             return (
@@ -719,6 +758,20 @@ fn check_crate(o: &gencrate::CrateOut, c: &AstCase) -> CrateCheck {
                     evals,
                     None,
                 );
+            }
+            if run.err.starts_with("parser: ParserError(InternalError") {
+                // raised by the generated adapter (pop_item!) when the AST stack is out of step
+                return (
+                    Some(("C23:adapter_reports_an_internal_error_on_an_accepted_sentence".into(), format!("{}\ninput {text:?}\noptions trim={} minimize_boxed={} range={}\n{gtext}", crate::util::trunc(&run.err, 600), c.trim, c.minimize, c.range))),
+                    classes,
+                    nontriv,
+                    samples,
+                    evals,
+                    None,
+                );
+            }
+            if std::env::var("PV_DEBUG").is_ok() {
+                eprintln!("REJECTED-SENTENCE input {text:?} err {}\n{gtext}", crate::util::trunc(&run.err, 300));
             }
             class("input/sentence_rejected_by_parser(C02/C03's subject)");
             continue;
